@@ -1,5 +1,133 @@
 import WuffsVerif.Common.Line
-/-! Line driver for C03 — stub, not built yet. -/
-open WuffsVerif.Line
+import WuffsVerif.Model.IOHelpers
+import WuffsVerif.Model.Suspend
+/-!
+Line driver for C03 (`wv_c03`). Ops (io2 is always the end of the given buffer):
 
-def main : IO Unit := runPure (fun _ => "bad-op")
+* `hist <variant> <hexbuf> <io0> <iop> <length> <distance>` →
+  `<ret> <iop'> <hexbuf'> <ok|unsafe>`; variants `checked fast fast_cusp chunks chunks_cusp dist1 dist1_cusp`
+  (the seven `limited_copy_u32_from_history*` helpers of io-private.h).
+* `from_slice <hexbuf> <io0> <iop> <length> <hexsrc>` (`limited_copy_u32_from_slice`),
+  `copy_from_slice <hexbuf> <io0> <iop> <hexsrc>` → same result shape.
+* `to_slice <hexbuf> <io0> <iop> <length> <dstlen>` (`io_reader.limited_copy_u32_to_slice`) →
+  `<ret> <iop'> <hex of bytes delivered> <ok|unsafe>`.
+* `susp <read|skip|write> <be:0|1> <xx> <yy> <arg> <chunks [a,b,…]> <hex bytes>`: one coroutine that
+  performs ONE suspending built-in, driven over a source (destination for `write`) that grows by the
+  given chunk sizes; prints one `status:consumed` per call and the final value:
+  `[s0:c0,s1:c1,…] <value>` with s ∈ `ok`, `sr` ($short read), `sw` ($short write).
+-/
+open WuffsVerif.Line
+open WuffsVerif
+
+namespace C03Driver
+
+def bytesHex (a : Array UInt8) : String := toHex a.toList
+
+def okWord (b : Bool) : String := if b then "ok" else "unsafe"
+
+def showRes (r : IOHelpers.Res) : String :=
+  s!"{r.ret} {r.iop} {bytesHex r.mem.buf} {okWord r.mem.ok}"
+
+def histOp (variant : String) (m : IOHelpers.Mem) (iop : Int) (len dist : Nat) : Option IOHelpers.Res :=
+  match variant with
+  | "checked" => some (IOHelpers.histCopy m iop len dist)
+  | "fast" => some (IOHelpers.histCopyFast m iop len dist)
+  | "fast_cusp" => some (IOHelpers.histCopyFastCusp m iop len dist)
+  | "chunks" => some (IOHelpers.histCopyChunks m iop len dist)
+  | "chunks_cusp" => some (IOHelpers.histCopyChunksCusp m iop len dist)
+  | "dist1" => some (IOHelpers.histCopyDist1 m iop len dist)
+  | "dist1_cusp" => some (IOHelpers.histCopyDist1Cusp m iop len dist)
+  | _ => none
+
+def mkMem (buf : List UInt8) (io0 : Nat) : IOHelpers.Mem :=
+  { buf := buf.toArray, lo := io0, hi := buf.length, ok := true }
+
+/-- Drive one suspending built-in over growing input. `avail` = bytes not yet consumed that the
+caller has supplied; each call sees them all (compaction keeps the unread tail). -/
+partial def suspLoop (kind : String) (be : Bool) (xx yy : Nat) (arg : Nat)
+    (rest : List UInt8) (chunks : List Nat) (unread : List UInt8)
+    (st : Option UInt64) (first : Bool) (acc : List String) (fuel : Nat) : String :=
+  if fuel == 0 then "fuel" else
+  -- supply the next chunk (last repeats; a 0 that repeats means "everything")
+  let (c, chunks') := match chunks with
+    | [] => (rest.length, [])
+    | [x] => ((if x == 0 then rest.length else x), [x])
+    | x :: xs => (x, xs)
+  let take := rest.take c
+  let rest' := rest.drop c
+  let window := unread ++ take
+  let io : Suspend.IO := { buf := window.toArray, iop := 0, io2 := window.length, closed := false, ok := true }
+  let out : Suspend.Out :=
+    match kind, st with
+    | "read", none => Suspend.readUxxEnter be xx yy io
+    | "read", some sc => Suspend.readUxxResume be xx yy io sc
+    | "read8", _ => Suspend.readU8 io
+    | "skip1", _ => Suspend.skip1 io
+    | "skip", none => Suspend.skipN io arg.toUInt64
+    | "skip", some sc => Suspend.skipN io sc
+    | _, _ => Suspend.Out.outOfFuel
+  let _ := first
+  match out with
+  | .done s v =>
+    let acc := acc ++ [s!"ok:{s.iop}"]
+    "[" ++ ",".intercalate acc ++ "] " ++ toString v.toNat ++ (if s.ok then "" else " unsafe")
+  | .shortRead s sc =>
+    let acc := acc ++ [s!"sr:{s.iop}"]
+    if rest'.isEmpty then "[" ++ ",".intercalate acc ++ "] -" ++ (if s.ok then "" else " unsafe")
+    else suspLoop kind be xx yy arg rest' chunks' (window.drop s.iop) (some sc) false acc (fuel - 1)
+  | .shortWrite _ _ => "bad"
+  | .outOfFuel => "fuel"
+
+/-- `write_u8?` over a destination that offers `caps` bytes of room per call. -/
+partial def writeLoop (v : Nat) (caps : List Nat) (acc : List String) (fuel : Nat) : String :=
+  if fuel == 0 then "fuel" else
+  let (c, caps') := match caps with
+    | [] => (1, [])
+    | [x] => (x, [x])
+    | x :: xs => (x, xs)
+  let io : Suspend.IO := { buf := Array.replicate c 0, iop := 0, io2 := c, closed := false, ok := true }
+  match Suspend.writeU8 io v.toUInt64 with
+  | .done s _ =>
+    "[" ++ ",".intercalate (acc ++ [s!"ok:{s.iop}"]) ++ "] " ++ bytesHex (s.buf.extract 0 s.iop) ++ (if s.ok then "" else " unsafe")
+  | .shortWrite s _ =>
+    if caps'.isEmpty || (caps' == [0]) then "[" ++ ",".intercalate (acc ++ [s!"sw:{s.iop}"]) ++ "] -"
+    else writeLoop v caps' (acc ++ [s!"sw:{s.iop}"]) (fuel - 1)
+  | _ => "bad"
+
+def step (f : List String) : String :=
+  match f with
+  | ["hist", variant, hb, io0, iop, len, dist] =>
+    match fromHex hb, io0.toNat?, iop.toInt?, len.toNat?, dist.toNat? with
+    | some b, some io0, some iop, some len, some dist =>
+      match histOp variant (mkMem b io0) iop len dist with
+      | some r => showRes r
+      | none => "bad-op"
+    | _, _, _, _, _ => "bad-op"
+  | ["from_slice", hb, io0, iop, len, hs] =>
+    match fromHex hb, io0.toNat?, iop.toInt?, len.toNat?, fromHex hs with
+    | some b, some io0, some iop, some len, some src =>
+      showRes (IOHelpers.copyFromSliceLimited (mkMem b io0) iop len src)
+    | _, _, _, _, _ => "bad-op"
+  | ["copy_from_slice", hb, io0, iop, hs] =>
+    match fromHex hb, io0.toNat?, iop.toInt?, fromHex hs with
+    | some b, some io0, some iop, some src => showRes (IOHelpers.copyFromSlice (mkMem b io0) iop src)
+    | _, _, _, _ => "bad-op"
+  | ["to_slice", hb, io0, iop, len, dl] =>
+    match fromHex hb, io0.toNat?, iop.toInt?, len.toNat?, dl.toNat? with
+    | some b, some io0, some iop, some len, some dl =>
+      let r := IOHelpers.copyToSliceLimited (mkMem b io0) iop len dl
+      s!"{r.1.ret} {r.1.iop} {toHex r.2} {okWord r.1.mem.ok}"
+    | _, _, _, _, _ => "bad-op"
+  | ["susp", kind, be, xx, yy, arg, chunks, hb] =>
+    match be.toNat?, xx.toNat?, yy.toNat?, arg.toNat?, parseNatList chunks, fromHex hb with
+    | some be, some xx, some yy, some arg, some chunks, some b =>
+      if kind == "write" then writeLoop arg chunks [] 100000
+      else if kind == "read" || kind == "read8" || kind == "skip" || kind == "skip1" then
+        suspLoop kind (be == 1) xx yy arg b chunks [] none true [] 100000
+      else "bad-op"
+    | _, _, _, _, _, _ => "bad-op"
+  | _ => "bad-op"
+
+end C03Driver
+
+def main : IO Unit := runPure C03Driver.step
